@@ -111,6 +111,7 @@ class Fn:
                 self._cfg_building = False
             self._cfg = c
             self._defs = None
+            self._vp_cache = {}   # values computed from the unfiltered definitions while the CFG was being built
         return self._cfg
 
     def promoted_fn(self, n):
@@ -152,6 +153,20 @@ class Program:
                     sigs = {}
                 self.alias_report = alias_moved(self.j, known, sigs)
                 self.inline_report = inline_new_helpers(self.j, known)
+        # crate structs that are not part of the reviewed inventory (a private result struct introduced instead of a tuple)
+        # are read as tuples: field k of the struct is component k
+        self.new_structs = set()
+        try:
+            ka = set(json.load(open(_os.path.join(_os.path.dirname(_os.path.dirname(_os.path.abspath(__file__))), "rules", "known_adts.json")))) if config != "fixture" else None
+        except (OSError, NameError):
+            ka = None
+        if ka:
+            for a in self.j["adts"]:
+                if a["path"] not in ka and len(a.get("variants", [])) == 1 and a.get("kind", "struct") in ("struct", "Struct"):
+                    # pure data carriers only: a new type with behaviour of its own (an iterator, a guard) keeps its fields
+                    has_impl = any((im.get("self_desc") or "").split("<")[0] == a["path"] and not im.get("auto_derived") for im in self.j["impls"])
+                    if not has_impl:
+                        self.new_structs.add(a["path"])
         self.fns = {}
         dup = set()
         for f in self.j["fns"]:
@@ -331,6 +346,75 @@ class CFG:
                     self.threaded = getattr(self, "threaded", [])
                     self.threaded.append((p, j, tgt))
                     changed = True
+        self._thread_options()
+
+    def _thread_options(self):
+        """the same for an Option built and matched at once (`while let Some(x) = helper(..)` with the helper inlined):
+        a block P whose last definition of a temporary T is the literal `Some(..)` / `None`, and which reaches - through
+        empty blocks only - a block J consisting of `d = discriminant(T); switch(d)`, continues at J's target for that
+        variant."""
+        fn = self.fn
+        for j in range(self.n):
+            bj = fn.blocks[j]
+            if bj["cleanup"] or bj["term"]["k"] != "switch" or len(bj["stmts"]) != 1:
+                continue
+            s0 = bj["stmts"][0]
+            if s0["k"] != "assign" or s0["rv"]["k"] != "discriminant" or s0["place"]["proj"] or s0["rv"]["place"]["proj"]:
+                continue
+            d = bj["term"]["discr"]
+            if d["k"] not in ("copy", "move") or d["place"]["proj"] or d["place"]["local"] != s0["place"]["local"]:
+                continue
+            if s0["rv"].get("path") != "std::option::Option":
+                continue
+            T = s0["rv"]["place"]["local"]
+            # walk back through empty goto blocks
+            front = [(j, None)]
+            seen = {j}
+            cands = []
+            while front:
+                x, first = front.pop()
+                for p in list(self.pred[x]):
+                    if p in seen:
+                        continue
+                    seen.add(p)
+                    bp = fn.blocks[p]
+                    if bp["cleanup"] or bp["term"]["k"] != "goto":
+                        continue
+                    hop = x   # the successor of p on the way to J
+                    if not bp["stmts"]:
+                        front.append((p, hop))
+                        continue
+                    cands.append((p, hop))
+            for p, hop in cands:
+                bp = fn.blocks[p]
+                val = None
+                for s in bp["stmts"]:
+                    if s["k"] == "assign" and s["place"]["local"] == T:
+                        rv = s["rv"]
+                        if not s["place"]["proj"] and rv["k"] == "aggregate" and rv.get("agg") == "adt" and rv.get("path") == "std::option::Option":
+                            val = 1 if rv.get("variant") == "Some" else 0
+                        else:
+                            val = None
+                if val is None:
+                    continue
+                # the empty blocks between p and J must have no other way in that could carry another value: they are
+                # only skipped for p, never removed
+                tgt = None
+                for v, tb in bj["term"]["targets"]:
+                    if v == val:
+                        tgt = tb
+                if tgt is None:
+                    tgt = bj["term"]["otherwise"]
+                ob = fn.blocks[tgt]
+                if ob["term"]["k"] == "unreachable" and not ob["stmts"]:
+                    continue
+                self.succ[p] = list(dict.fromkeys(tgt if y == hop else y for y in self.succ[p]))
+                if p in self.pred[hop]:
+                    self.pred[hop].remove(p)
+                if p not in self.pred[tgt]:
+                    self.pred[tgt].append(p)
+                self.threaded = getattr(self, "threaded", [])
+                self.threaded.append((p, j, tgt))
 
     def _reach(self, start):
         seen = {start}
@@ -518,6 +602,9 @@ class VP:
 
     def _field(self, fn, base, e):
         name = e.get("name", e["i"])
+        if e.get("of") in self.prog.new_structs:
+            e = {"k": "field", "i": e["i"], "ty": e.get("ty")}   # a tuple component
+            name = e["i"]
         # tuple / aggregate projection folding
         if base[0] == "tuple" and isinstance(e["i"], int) and e["i"] < len(base[1]) and "name" not in e:
             return base[1][e["i"]]
@@ -638,6 +725,8 @@ class VP:
             if a == "tuple":
                 return ("tuple", ops)
             if a == "adt":
+                if rv["path"] in self.prog.new_structs:
+                    return ("tuple", ops)
                 return ("adt", rv["path"], rv["variant"], ops)
             if a == "array":
                 return ("array", ops)
